@@ -394,6 +394,87 @@ fn copy_seeds(from: &str, to: &str) -> usize {
     n
 }
 
+/// How many libFuzzer processes run side by side (the machine is shared: never more than 4).
+const FUZZ_WORKERS: u64 = 4;
+
+struct ChildResult {
+    executed: Option<u64>,
+    ok: bool,
+    tail: Vec<String>,
+}
+
+/// One `cargo +nightly fuzz run` process with a fixed number of executions; its stderr is streamed
+/// (statistics kept, everything else dropped except the last lines).
+fn fuzz_child(idx: u64, runs: u64, seed: u64, work: &str) -> Option<ChildResult> {
+    let mut cmd = std::process::Command::new("cargo");
+    cmd.args(["+nightly", "fuzz", "run", "--fuzz-dir", FUZZ_DIR, TARGET, work, "--"])
+        .arg(format!("-runs={runs}"))
+        .arg(format!("-seed={seed}"))
+        .args(["-max_len=512", "-print_final_stats=1"])
+        // the parsers under test print a diagnostic for every rejected line: keep the target's own
+        // stderr out of the pipe (libFuzzer keeps a private copy of the descriptor for its report)
+        .arg("-close_fd_mask=2")
+        .current_dir("/verif/harness")
+        .env("CARGO_NET_OFFLINE", "true")
+        .env("CARGO_BUILD_JOBS", "4")
+        .env_remove("RUSTFLAGS")
+        .env_remove("CARGO_TARGET_DIR")
+        .stdin(std::process::Stdio::null())
+        .stdout(std::process::Stdio::null())
+        .stderr(std::process::Stdio::piped());
+    let mut child = match cmd.spawn() {
+        Ok(c) => c,
+        Err(e) => {
+            println!("libfuzzer[{idx}]: cannot spawn cargo fuzz: {e}");
+            return None;
+        }
+    };
+    let pid = child.id();
+    let finished = std::sync::Arc::new(std::sync::atomic::AtomicBool::new(false));
+    {
+        // safety net only (never a verdict): a campaign of this size takes minutes
+        let finished = finished.clone();
+        std::thread::spawn(move || {
+            for _ in 0..(45 * 60) {
+                std::thread::sleep(std::time::Duration::from_secs(1));
+                if finished.load(std::sync::atomic::Ordering::Relaxed) {
+                    return;
+                }
+            }
+            unsafe {
+                libc::kill(pid as i32, libc::SIGKILL);
+            }
+        });
+    }
+    let mut executed: Option<u64> = None;
+    let mut tail: std::collections::VecDeque<String> = Default::default();
+    if let Some(err) = child.stderr.take() {
+        let mut rd = BufReader::new(err);
+        let mut buf = Vec::new();
+        loop {
+            buf.clear();
+            match rd.read_until(b'\n', &mut buf) {
+                Ok(0) | Err(_) => break,
+                Ok(_) => {}
+            }
+            let line = String::from_utf8_lossy(&buf).trim_end().to_string();
+            if let Some(rest) = line.strip_prefix("stat::number_of_executed_units:") {
+                executed = rest.trim().parse().ok();
+            }
+            if line.starts_with("stat::") || line.starts_with("Done ") || line.contains("ERROR: libFuzzer") || line.contains("Test unit written") {
+                println!("libfuzzer[{idx}]: {line}");
+            }
+            if tail.len() >= 30 {
+                tail.pop_front();
+            }
+            tail.push_back(line);
+        }
+    }
+    let status = child.wait();
+    finished.store(true, std::sync::atomic::Ordering::Relaxed);
+    Some(ChildResult { executed, ok: status.map(|s| s.success()).unwrap_or(false), tail: tail.into_iter().collect() })
+}
+
 impl Part for LibFuzzer {
     type Case = FuzzJob;
     fn name(&self) -> &'static str {
@@ -412,96 +493,50 @@ impl Part for LibFuzzer {
             o.skipped.push("libfuzzer-not-run-under-scratch-root");
             return o;
         }
-        let work = format!("{FUZZ_DIR}/corpus-work/{TARGET}");
-        let _ = std::fs::remove_dir_all(&work);
-        if std::fs::create_dir_all(&work).is_err() {
+        let base = format!("{FUZZ_DIR}/corpus-work/{TARGET}");
+        let _ = std::fs::remove_dir_all(&base);
+        if std::fs::create_dir_all(&base).is_err() {
             o.skipped.push("libfuzzer-unavailable");
             return o;
         }
-        let seeds = copy_seeds(&format!("/verif/corpus/{TARGET}"), &work);
+        let seeds = copy_seeds(&format!("/verif/corpus/{TARGET}"), &base);
         let art_dir = format!("{FUZZ_DIR}/artifacts/{TARGET}");
         let before: HashSet<String> = files_in(&art_dir, 1_000_000).into_iter().collect();
-        println!("libfuzzer: {} runs, seed {}, {} seed inputs, work corpus {}", job.runs, job.seed, seeds, work);
-        let mut cmd = std::process::Command::new("cargo");
-        cmd.args(["+nightly", "fuzz", "run", "--fuzz-dir", FUZZ_DIR, TARGET, &work, "--"])
-            .arg(format!("-runs={}", job.runs))
-            .arg(format!("-seed={}", job.seed))
-            .args(["-max_len=512", "-print_final_stats=1"])
-            // the parsers under test print a diagnostic for every rejected line: keep the target's own
-            // stderr out of the pipe (libFuzzer keeps a private copy of the descriptor for its report)
-            .arg("-close_fd_mask=2")
-            .current_dir("/verif/harness")
-            .env("CARGO_NET_OFFLINE", "true")
-            .env("CARGO_BUILD_JOBS", "4")
-            .env_remove("RUSTFLAGS")
-            .env_remove("CARGO_TARGET_DIR")
-            .stdin(std::process::Stdio::null())
-            .stdout(std::process::Stdio::null())
-            .stderr(std::process::Stdio::piped());
-        let mut child = match cmd.spawn() {
-            Ok(c) => c,
-            Err(e) => {
-                println!("libfuzzer: cannot spawn cargo fuzz: {e}");
-                o.skipped.push("libfuzzer-unavailable");
-                return o;
-            }
-        };
-        let pid = child.id();
-        let finished = std::sync::Arc::new(std::sync::atomic::AtomicBool::new(false));
-        {
-            // safety net only (never a verdict): a campaign of this size takes minutes
-            let finished = finished.clone();
-            std::thread::spawn(move || {
-                for _ in 0..(40 * 60) {
-                    std::thread::sleep(std::time::Duration::from_secs(1));
-                    if finished.load(std::sync::atomic::Ordering::Relaxed) {
-                        return;
-                    }
-                }
-                unsafe {
-                    libc::kill(pid as i32, libc::SIGKILL);
-                }
-            });
-        }
-        let mut executed: Option<u64> = None;
-        let mut tail: std::collections::VecDeque<String> = Default::default();
-        if let Some(err) = child.stderr.take() {
-            let mut rd = BufReader::new(err);
-            let mut buf = Vec::new();
-            loop {
-                buf.clear();
-                match rd.read_until(b'\n', &mut buf) {
-                    Ok(0) | Err(_) => break,
-                    Ok(_) => {}
-                }
-                let line = String::from_utf8_lossy(&buf).trim_end().to_string();
-                if let Some(rest) = line.strip_prefix("stat::number_of_executed_units:") {
-                    executed = rest.trim().parse().ok();
-                }
-                if line.starts_with("stat::") || line.starts_with("Done ") || line.contains("ERROR") || line.contains("artifact") {
-                    println!("libfuzzer: {line}");
-                }
-                if tail.len() >= 30 {
-                    tail.pop_front();
-                }
-                tail.push_back(line);
-            }
-        }
-        let status = child.wait();
-        finished.store(true, std::sync::atomic::Ordering::Relaxed);
+        println!("libfuzzer: {} executions in {} processes, seeds {}.., {} seed inputs, work corpus {}", job.runs, FUZZ_WORKERS, job.seed, seeds, base);
+        // process 0 alone first: it (re)builds the target if needed, the others then find it built
+        let per = job.runs / FUZZ_WORKERS;
+        let results: Vec<Option<ChildResult>> = std::thread::scope(|sc| {
+            let hs: Vec<_> = (0..FUZZ_WORKERS)
+                .map(|i| {
+                    let base = base.clone();
+                    sc.spawn(move || {
+                        if i > 0 {
+                            // let process 0 take the cargo build lock first
+                            std::thread::sleep(std::time::Duration::from_secs(2));
+                        }
+                        // all processes share one corpus directory: libFuzzer only adds files to it
+                        fuzz_child(i, per, job.seed.wrapping_add(i) & 0x7fff_ffff, &base)
+                    })
+                })
+                .collect();
+            hs.into_iter().map(|h| h.join().ok().flatten()).collect()
+        });
         let new_artifacts: Vec<String> = files_in(&art_dir, 1_000_000).into_iter().filter(|f| !before.contains(f)).collect();
-        let ok = status.as_ref().map(|s| s.success()).unwrap_or(false);
-        if executed.is_none() && new_artifacts.is_empty() {
-            println!("libfuzzer: no statistics and no crash file (status {:?}); last output:", status);
-            for l in &tail {
-                println!("libfuzzer| {l}");
+        let executed: u64 = results.iter().flatten().filter_map(|r| r.executed).sum();
+        if executed == 0 && new_artifacts.is_empty() {
+            println!("libfuzzer: no statistics and no crash file; last output of process 0:");
+            if let Some(Some(r)) = results.first() {
+                for l in &r.tail {
+                    println!("libfuzzer| {l}");
+                }
             }
             o.skipped.push("libfuzzer-unavailable");
             return o;
         }
-        o.inner_evals += executed.unwrap_or(0);
-        o.nontrivial = executed.unwrap_or(0) > 0;
-        o.class_if(ok, "campaign-completed-without-crash");
+        o.inner_evals += executed;
+        o.nontrivial = executed > 0;
+        o.class_if(results.iter().all(|r| r.as_ref().map_or(false, |r| r.ok)), "campaign-completed-without-crash");
+        o.class_if(executed < per * FUZZ_WORKERS, "campaign-cut-short");
         // classification of crash files happens here, on the stable build
         let mut fails: Vec<(String, String)> = vec![];
         for a in &new_artifacts {
@@ -566,7 +601,7 @@ fn main() {
     s.run_enum(&Corpus, corpus_cases().into_iter(), false);
     s.run(&Datasets);
     if tier == Tier::Thorough {
-        let job = FuzzJob { runs: 2_000_000, seed: if seed == 0 { 1 } else { seed & 0x7fff_ffff } };
+        let job = FuzzJob { runs: 1_000_000, seed: if seed == 0 { 1 } else { seed & 0x7fff_ffff } };
         s.run_enum(&LibFuzzer, std::iter::once(job), false);
     }
     if discover() {
